@@ -18,11 +18,31 @@ RANGES = {"tiny": (-128, 127), "short": (-32768, 32767), "int": (-2**31, 2**31 -
           "uchar": (0, 255), "bool": (0, 1)}
 
 
+def sexp_items(e):
+    """top-level items of the S-expression string `(a b (c d) e)` -> ['a', 'b', '(c d)', 'e']"""
+    assert e[0] == "(" and e[-1] == ")"
+    out, depth, cur = [], 0, ""
+    for ch in e[1:-1]:
+        if ch == "(":
+            depth += 1
+        elif ch == ")":
+            depth -= 1
+        if ch == " " and depth == 0:
+            if cur:
+                out.append(cur)
+            cur = ""
+        else:
+            cur += ch
+    if cur:
+        out.append(cur)
+    return out
+
+
 class Opts:
     def __init__(self, **kw):
         self.avoid_short_circuit = False    # C03 #5 (fixed by a51b767): && || evaluated both operands
         self.avoid_ternary_nonint = False   # C01 #39 (fixed by 990fbc8): ?: yielded 0 when the chosen branch was a long/short/tiny variable
-        self.avoid_elem_rhs = True          # C01 #40/#41: a[i] = (c ? x : y) stores 0; a[i] = f() calls f twice
+        self.avoid_elem_rhs = False         # C01 #40/#41 (fixed by 9f37f83, df79998): a[i] = (c ? x : y) stored 0; a[i] = f() called f twice
         self.avoid_elem_compound = True     # C01 #1: a[e] op= v only for literal / variable index on 1-D arrays
         self.avoid_incdec_limit = False     # C04 #7 (fixed by 892a98c/1b2d709): ++/-- were not range checked
         self.avoid_multidim_narrow = False  # C04 (fixed by a6c628c): stores into multi-dimensional arrays were not range checked
@@ -262,7 +282,13 @@ class Gen:
         loses the range check of the store (finding C04-bare-multidim-element)"""
         e = self.expr(env, d, calls)
         if self.o.avoid_assign_top_ternary and e.startswith("(cond"):   # finding C01-ternary-assign-bool-branch
-            e = "(bin + %s 0)" % e
+            # the finding concerns only a BRANCH whose type is inferred bool although its value is not 0/1: unary - / ~ over a
+            # bool-typed operand, or a nested ?: (probed on the binary); such a branch gets `+ 0`, the statement stays a
+            # top-level ternary store (execute_ternary_assignment), which the earlier blanket rule `(cond ..) + 0` never reached
+            c, a, b = sexp_items(e)[1:4]
+            fix = lambda x: "(bin + %s 0)" % x if x.startswith("(un -") or x.startswith("(un ~") or x.startswith("(cond") else x
+            e = "(cond %s %s %s)" % (c, fix(a), fix(b))
+            self.feats.add("top-ternary-store")
         if self.o.avoid_return_elem and e.startswith("(idx"):
             e = "(bin + %s 0)" % e
         return e
